@@ -30,7 +30,8 @@ def required(tier):
     return ["time:direct query", "time:tempo event", "time:time-signature event", "time:text event", "time:section event",
             "time:lyric event", "time:note", "time:note end", "time:star-power event", "time:track event",
             "tick_at_tempo_change", "tick_past_last_tempo", "fraction_within_1e-3_of_half_us", "segment:10-499", "segment:500+",
-            "bpm_below_1", "bpm_at_least_1e5", "directed_half_boundary", "concurrent_stage", "ambient_decimal_context_lowered", "ticks_around_2^31..10^12"]
+            "bpm_below_1", "bpm_at_least_1e5", "directed_half_boundary", "concurrent_stage", "ambient_decimal_context_lowered", "ticks_around_2^31..10^12",
+            "whole_seconds_minutes_hours_days_and_half_a_microsecond_short_of_them"]
 
 
 def shards(tier, seed):
@@ -100,6 +101,38 @@ def directed_case(rng) -> dict | None:
     return case
 
 
+def carry_case(rng) -> dict:
+    """Directed: times that are EXACT whole seconds / minutes / hours / days (timedelta's days-seconds-microseconds carry) and times
+    half a microsecond short of them (rounding carries into the next second or not — both within the budget, neither may lose a
+    second); events and sustain ends on those very ticks; a tempo change exactly on such a boundary."""
+    k = rng.randrange(4)
+    if k == 0:      # 60 BPM at resolution 1: tick t = t seconds exactly
+        res, tempos = 1, [[0, 60000]]
+        ticks = [1, 59, 60, 61, 3599, 3600, 3601, 86399, 86400, 86401, 172800, 2 * 86400 + 3600 + 60 + 1, 999999]
+    elif k == 1:    # 0.5 us per tick (125 000 BPM at resolution 960): odd ticks are ties; 2e6*k ticks = k seconds
+        res, tempos = 960, [[0, 125000000]]
+        ticks = sorted({2 * 10**6 * m + d for m in (1, 2, 60, 61, 3600) for d in (-1, 0, 1)} | {1, 2, 3, 1999997})
+    elif k == 2:    # 120 BPM at 192: 384 ticks per second; a tempo change exactly on the minute and on the hour
+        res, tempos = 192, [[0, 120000], [384 * 60, 60000], [384 * 60 + 192 * 3540, 240000]]
+        ticks = sorted({384, 383, 385, 384 * 60 - 1, 384 * 60, 384 * 60 + 1, 384 * 60 + 192, 384 * 60 + 192 * 3540 - 1, 384 * 60 + 192 * 3540,
+                        384 * 60 + 192 * 3540 + 768, 384 * 60 + 192 * 3540 + 768 * 3600})
+    else:           # thousandths of a BPM that give whole microseconds per tick: 62.5 BPM at 960 -> 1000 us per tick
+        res, tempos = 960, [[0, 62500], [1000, 31250], [1500, 125000]]
+        ticks = [1, 999, 1000, 1001, 1499, 1500, 1501, 1500 + 2000 * 59, 1500 + 2000 * 60, 1500 + 2000 * 3600, 1500 + 2000 * 86400]
+    tempos = [[t, gen.usable_n(n)] for t, n in tempos]
+    groups = []
+    for i, t in enumerate(ticks):
+        ln = (ticks[i + 1] - t) if (i % 2 == 0 and i + 1 < len(ticks)) else 0  # held exactly until the next boundary tick
+        groups.append({"tick": t, "lanes": {str(i % 5): ln}, "open": None, "forced": False, "tap": False})
+    truth = {"resolution": res, "tempos": tempos, "timesigs": [[0, 4, None]] + [[t, 3, 3] for t in ticks[:2]],
+             "globals": [[t, ["text", "section", "lyric"][i % 3], f"b{i}"] for i, t in enumerate(ticks)],
+             "tracks": {"GUITAR/EXPERT": {"groups": groups, "phrases": [[t, 1] for t in ticks], "tevents": [[t, "solo"] for t in ticks]}}}
+    case = gen.render_truth(truth)
+    case["queries"] = sorted(set(ticks + [0]))
+    case["directed"] = True
+    return case
+
+
 # ------------------------------------------------------------------------------------------ judging
 def check_case(rec, case: dict) -> None:
     out, ob, d = mcheck.judge(rec, ("C01",), case, extra=extra)
@@ -164,6 +197,9 @@ def run_shard(shard, rec, tier, seed):
         elif i % 25 == 3:
             case = gen.huge_tick_chart(rng)
             rec.cls("ticks_around_2^31..10^12")
+        elif i % 25 == 8:
+            case = carry_case(rng)
+            rec.cls("whole_seconds_minutes_hours_days_and_half_a_microsecond_short_of_them")
         else:
             prof = "hostile" if i % 2 else "realistic"
             case = gen.gen_chart(rng, prof, n_tempos=rng.choice([1, 2, 3, 5, 12, 30, 80]) if prof == "hostile" else None)
